@@ -4,6 +4,7 @@ import (
 	"fmt"
 	"go/ast"
 	"go/token"
+	"go/types"
 	"strings"
 
 	"verif/checker/internal/core"
@@ -78,18 +79,17 @@ func ruleC16Space(c *ctx.Ctx, r *core.Reporter) {
 		return
 	}
 	info := c.Pkg("compiler").TypesInfo
-	ret, _ := ns.Body.List[0].(*ast.ReturnStmt)
-	if ret == nil || len(ret.Results) != 1 {
-		r.Undecided("needsSpace:shape", c.Pos(ns.Pos()), "expected a single return of a boolean expression")
+	param := ns.Type.Params.List[0].Names[0].Name
+	if _, ok := evalBytePredBody(info, ns.Body.List, param, 'a'); !ok {
+		r.Undecided("needsSpace:shape", c.Pos(ns.Pos()), "the predicate is not made of returns, ifs and switches over comparisons of its parameter with constants")
 		return
 	}
-	param := ns.Type.Params.List[0].Names[0].Name
 	for b := int64(0); b < 256; b++ {
 		must := (b >= 'a' && b <= 'z') || (b >= 'A' && b <= 'Z') || (b >= '0' && b <= '9') || b == '_' || b == '$' || b == 8
 		if !must {
 			continue
 		}
-		v, ok := evalByteCond(info, ret.Results[0], param, b)
+		v, ok := evalBytePredBody(info, ns.Body.List, param, b)
 		if !ok {
 			r.Undecided(fmt.Sprintf("needsSpace:0x%02X", b), c.Pos(ns.Pos()), "cannot evaluate the predicate")
 			return
@@ -262,4 +262,91 @@ func checkPreviousIsCodeByte(c *ctx.Ctx, r *core.Reporter, rw *ast.FuncDecl) {
 	})
 	ok := declOutside && nAssign >= 1 && len(bad) == 0
 	r.Check(ok, "previous-is-last-code-byte", c.Pos(rw.Pos()), ternary(ok, "`previous` lives across iterations and is only ever set to the code byte just emitted (b[0]); hint payload bytes copied by the hint arm never influence whitespace decisions, so minified code does not depend on hint values", fmt.Sprintf("`previous` must be the last emitted code byte: declared outside the loop=%v, assignments=%d, problems: %s — deriving it from the output buffer lets the last payload byte of a source-map hint decide whether the following blank is kept", declOutside, nAssign, strings.Join(bad, "; "))))
+}
+
+// evalBytePredBody evaluates a boolean predicate over one byte parameter for a given value: the body may
+// consist of return statements, if/else chains and switches (tagless with boolean cases, or on the
+// parameter with constant cases). It returns the result and whether the body was within that language.
+func evalBytePredBody(info *types.Info, list []ast.Stmt, param string, b int64) (result bool, ok bool) {
+	var run func(list []ast.Stmt) (done bool, val bool, ok bool)
+	run = func(list []ast.Stmt) (bool, bool, bool) {
+		for _, st := range list {
+			switch x := st.(type) {
+			case *ast.ReturnStmt:
+				if len(x.Results) != 1 {
+					return false, false, false
+				}
+				v, ok := evalByteCond(info, x.Results[0], param, b)
+				return true, v, ok
+			case *ast.IfStmt:
+				if x.Init != nil {
+					return false, false, false
+				}
+				cv, ok := evalByteCond(info, x.Cond, param, b)
+				if !ok {
+					return false, false, false
+				}
+				if cv {
+					if d, v, ok := run(x.Body.List); !ok || d {
+						return d, v, ok
+					}
+				} else if x.Else != nil {
+					var els []ast.Stmt
+					switch e := x.Else.(type) {
+					case *ast.BlockStmt:
+						els = e.List
+					default:
+						els = []ast.Stmt{e}
+					}
+					if d, v, ok := run(els); !ok || d {
+						return d, v, ok
+					}
+				}
+			case *ast.SwitchStmt:
+				if x.Init != nil {
+					return false, false, false
+				}
+				var chosen, def *ast.CaseClause
+				for _, cs := range x.Body.List {
+					cc := cs.(*ast.CaseClause)
+					if cc.List == nil {
+						def = cc
+						continue
+					}
+					for _, l := range cc.List {
+						var hit, ok bool
+						if x.Tag == nil {
+							hit, ok = evalByteCond(info, l, param, b)
+						} else {
+							hit, ok = evalByteCond(info, &ast.BinaryExpr{X: x.Tag, Op: token.EQL, Y: l}, param, b)
+						}
+						if !ok {
+							return false, false, false
+						}
+						if hit && chosen == nil {
+							chosen = cc
+						}
+					}
+				}
+				if chosen == nil {
+					chosen = def
+				}
+				if chosen != nil {
+					for _, bs := range chosen.Body {
+						if br, isBranch := bs.(*ast.BranchStmt); isBranch && br.Tok == token.FALLTHROUGH {
+							return false, false, false
+						}
+					}
+					if d, v, ok := run(chosen.Body); !ok || d {
+						return d, v, ok
+					}
+				}
+			default:
+				return false, false, false
+			}
+		}
+		return false, false, true
+	}
+	done, val, ok := run(list)
+	return val, ok && done
 }
